@@ -5746,8 +5746,8 @@ class SFTPClient:
 
             names, _ = await self._handler.realpath(path_bytes)
 
-        if len(names) > 1:
-            raise SFTPBadMessage('Too many names returned')
+        if len(names) != 1:
+            raise SFTPBadMessage('Unexpected number of names returned')
 
         if check != FXRP_NO_CHECK:
             if self.version < 6:
@@ -5826,8 +5826,8 @@ class SFTPClient:
         linkpath = self.compose_path(path)
         names, _ = await self._handler.readlink(linkpath)
 
-        if len(names) > 1:
-            raise SFTPBadMessage('Too many names returned')
+        if len(names) != 1:
+            raise SFTPBadMessage('Unexpected number of names returned')
 
         return self.decode(cast(bytes, names[0].filename),
                            isinstance(path, (str, PurePath)))
